@@ -74,15 +74,20 @@ class AvroWriter(AbstractWriter):
         self.writer.write(r._packdict())
 
     def flush(self):
-        if not self.writer:
-            self.writer = fastavro.write.Writer(
-                self.fp,
-                fastavro.parse_schema({"type": "record", "name": "empty"}),
-                codec=self.codec,
-            )
-        self.writer.flush()
+        # Without a record there is no schema yet; an empty container is written on close()
+        if self.writer:
+            self.writer.flush()
 
     def close(self) -> None:
+        if self.fp:
+            if not self.writer:
+                self.writer = fastavro.write.Writer(
+                    self.fp,
+                    fastavro.parse_schema({"type": "record", "name": "empty"}),
+                    codec=self.codec,
+                )
+            # fastavro buffers records in a block that is only written on flush()
+            self.writer.flush()
         if self.fp and not is_stdout(self.fp):
             self.fp.close()
         self.fp = None
